@@ -128,7 +128,10 @@ class Case:
                     dup = bool(t) and e2e in self.window.get(origin, [])
                     seen_before = e2e in self.window.get(origin, []) or any(p[0] == origin and p[1] == e2e
                                                                              for p in self.pending)
-                    sp.send(M.ccr(origin, self.REALM, self.REALM, app=4, hbh=hbh, e2e=e2e, flags=flags,
+                    # modes "noroute" / "noapp": a request the node answers itself (3003 realm not served, 3007
+                    # application unsupported) - answered all the same, so it enters the origin's window
+                    sp.send(M.ccr(origin, self.REALM, "nowhere.example" if mode == "noroute" else self.REALM,
+                                  app=999 if mode == "noapp" else 4, hbh=hbh, e2e=e2e, flags=flags,
                                   session=f"s;{si}"))
                     h.settle()
                     ev = w.observe()["events"]
@@ -144,6 +147,19 @@ class Case:
                             self.witness("duplicate.delivered_to_application", ctx)
                         if len(ans) != 1 or ans[0].result_code != 5012:
                             self.witness("duplicate.not_answered_5012", {**ctx, "answers": [repr(f) for f in ans]})
+                        if ans:
+                            self.record(origin, e2e)
+                    elif mode in ("noroute", "noapp"):
+                        want = 3003 if mode == "noroute" else 3007
+                        self.run.cov["node_answered_routing_errors"] = self.run.cov.get("node_answered_routing_errors", 0) + 1
+                        if deliv:
+                            self.witness("unroutable_request.delivered_to_application", ctx)
+                        if len(ans) != 1 or ans[0].result_code != want:
+                            key = "unroutable_request.not_answered_by_node"
+                            if ans and ans[0].result_code == 5012:
+                                key = ("non_duplicate.rejected_without_T_flag" if not t else
+                                       "non_duplicate.rejected_although_outside_window")
+                            self.witness(key, {**ctx, "want": want, "answers": [repr(f) for f in ans]})
                         if ans:
                             self.record(origin, e2e)
                     else:
@@ -273,7 +289,8 @@ def run_shard(spec):
         # reduced alphabet for the exhaustive part: one origin varies in the last position only
         small = [a for a in alpha if a[1] == 0 and a[2] < 2] + [("req", 1, 0, 1, "now"), ("sub",), ("dwr",),
                                                                 ("reconn",), ("req", 2, 0, 0, "now"), ("req", 2, 0, 1, "now"),
-                                                                ("wd", 0, 0, 0), ("wd", 0, 0, 1), ("wd", 0, 1, 1)]
+                                                                ("wd", 0, 0, 0), ("wd", 0, 0, 1), ("wd", 0, 1, 1),
+                                                                ("req", 0, 0, 0, "noroute"), ("req", 0, 0, 1, "noapp")]
         i = 0
         for L in range(2, spec["length"] + 1):
             for seq in itertools.product(small, repeat=L):
@@ -298,6 +315,8 @@ def run_shard(spec):
                         s[3] = 1
                     if rng.random() < 0.3:
                         s[1] = 2          # the request originates at the peer itself
+                    if rng.random() < 0.15:
+                        s[4] = rng.choice(["noroute", "noapp"])
                     seq.append(tuple(s) + (rng.randrange(nconn),))
                 elif r < 0.78:
                     seq.append(("wd", rng.randrange(2), rng.randrange(3), int(rng.random() < 0.6), 0, rng.randrange(nconn)))
